@@ -193,6 +193,12 @@ pub fn random_groups(rng: &mut Rng) -> [u16; 8] {
             }
         };
     }
+    if rng.chance(1, 8) {
+        // well-known classes: link-local (with a non-zero second group), multicast, 6to4, NAT64, ULA, doc
+        let p: [u16; 2] = *rng.pick(&[[0xfe80, 0x0004], [0xfe80, 0], [0xff02, 0x1], [0x2002, 0xc000], [0x0064, 0xff9b], [0xfc00, 0x1], [0xfd12, 0x3456], [0x2001, 0x0db8], [0x0100, 0]]);
+        g[0] = p[0];
+        g[1] = p[1];
+    }
     if style == 5 {
         // IPv4-mapped / compatible shapes
         let (a, b) = (rng.next() as u16, rng.next() as u16);
@@ -212,6 +218,11 @@ pub fn random_port(rng: &mut Rng) -> u16 {
 }
 
 pub fn random_octets(rng: &mut Rng) -> [u8; 4] {
+    if rng.chance(1, 6) {
+        // well-known classes
+        let first = *rng.pick(&[0u8, 10, 100, 127, 169, 172, 192, 198, 203, 224, 240, 255]);
+        return [first, rng.next() as u8, rng.next() as u8, rng.next() as u8 | 1];
+    }
     let mut o = [0u8; 4];
     for x in o.iter_mut() {
         *x = match rng.below(5) {
@@ -434,6 +445,30 @@ fn address_block(fam: u8, rng: &mut Rng) -> Vec<u8> {
         a.extend(rng.bytes(4));
         a
     };
+    // addresses of well-known classes (with arbitrary non-zero bytes after the prefix)
+    if fam == 2 && rng.chance(1, 5) {
+        let prefixes: [&[u8]; 9] = [&[0xfe, 0x80], &[0xfe, 0xc0], &[0xff, 0x02], &[0x20, 0x02], &[0x00, 0x64, 0xff, 0x9b], &[0xfc, 0x00], &[0xfd], &[0x20, 0x01, 0x0d, 0xb8], &[0x01, 0x00]];
+        for off in [0usize, 16] {
+            if rng.chance(2, 3) {
+                let p = *rng.pick(&prefixes);
+                body[off..off + p.len()].copy_from_slice(p);
+                for b in body[off + p.len()..off + 16].iter_mut() { if *b == 0 { *b = 0x5a; } }
+            }
+        }
+        return body;
+    }
+    if fam == 1 && rng.chance(1, 5) {
+        let firsts = [0u8, 10, 100, 127, 169, 172, 192, 198, 203, 224, 240, 255];
+        body[0] = *rng.pick(&firsts);
+        body[4] = *rng.pick(&firsts);
+        return body;
+    }
+    if fam != 0 && rng.chance(1, 12) {
+        // a block of one repeated byte (all zero / all ones): with LOCAL as well as PROXY commands
+        let fill = *rng.pick(&[0u8, 0, 0xff]);
+        for b in body.iter_mut() { *b = fill; }
+        return body;
+    }
     match (fam, rng.below(10)) {
         (2, 0) => { let (a, b) = (mapped(rng), mapped(rng)); body[..16].copy_from_slice(&a); body[16..32].copy_from_slice(&b); }
         (2, 1) => { let a = mapped(rng); body[..16].copy_from_slice(&a); }
@@ -456,7 +491,14 @@ pub fn random_v2_good(rng: &mut Rng) -> Vec<u8> {
     let fam = rng.below(4) as u8;
     let afp = (fam << 4) | rng.below(3) as u8;
     let mut body = address_block(fam, rng);
-    body.extend(random_tlv_section(rng, 80));
+    if !body.is_empty() && body.iter().all(|b| *b == body[0]) && rng.chance(1, 2) {
+        // keep the whole payload uniform now and then (no TLVs, or padding of the same byte)
+        let pad = rng.below(4) as usize;
+        let fill = body[0];
+        body.extend(std::iter::repeat(fill).take(pad));
+    } else {
+        body.extend(random_tlv_section(rng, 80));
+    }
     v2_header(vc, afp, body.len() as u16, &body)
 }
 
@@ -741,6 +783,19 @@ pub fn generate(name: &str, count: usize, rng: &mut Rng, sink: &mut dyn FnMut(Se
                 let (tag, bytes) = corrupt_v2(rng);
                 let chunks = if rng.chance(1, 4) && bytes.len() < 100 { split_each(&bytes) } else { vec![bytes.clone()] };
                 sink(Session { sid: format!("v2corrupt-{}", i), tag, chunks });
+            }
+        }
+        // an accepted header followed by more than 64 KiB in the same buffer
+        "bigtrail" => {
+            for i in 0..count {
+                let mut bytes = if i % 3 == 2 { random_line_tokens(rng).concat() } else { random_v2_good(rng) };
+                let hl = bytes.len();
+                let extra = *rng.pick(&[65535usize, 65536, 65537, 70000, 131072]);
+                let fill = rng.next() as u8;
+                bytes.extend(std::iter::repeat(fill).take(extra));
+                let n = bytes.len();
+                let chunks = split_at(&bytes, &[hl.saturating_sub(1), hl, hl + 1, hl + 65535, hl + 65536, n - 1]);
+                sink(Session { sid: format!("bigtrail-{}", i), tag: json!({"g": "bigtrail"}), chunks });
             }
         }
         // control-byte pairs: count >= 65536 means all of them, otherwise axis-aligned + random
